@@ -8,10 +8,17 @@
 //!   (case paeth lo hi)                              every (left, above, upper-left) with lo <= left < hi through
 //!                                                    decode_row(Paeth), folded into a checksum
 //!   (case doc <doc> (nocomp (id gen)...) <orc>)     Document::compress then Document::decompress
+//!   (case lzwrt ec limit xDATA (encs xE...))      weezl's LZW decoder (early change iff ec != 0) on every stream E; the first E is the
+//!                                                    output of the Gallina encoder of Spec/LzwSpec.v (echoed, the model recomputes it),
+//!                                                    the others come from weezl's encoder and the Python reference; all must give DATA
+//!   (case lzwdec ec xE)                             weezl's decoder on an arbitrary stream (codec correspondence only)
+//!   (case zrt k xDATA (encs xE...))                 the same for flate2's zlib decoder: the spec's stored-block stream, flate2's own
+//!                                                    output at levels 0/1/6/9, Python zlib's
+//!   (case zdec xE)                                  flate2's zlib decoder on an arbitrary stream
 //! <expect> = (plain xHEX) | (plainonly xHEX) | (none).  <orc> is only read by the model (answers of flate2 / weezl).
 //!
 //! Oracle mode (`c09 --oracle`): one query per line, `(f xIN)` zlib-decode, `(l0 xIN)` / `(l1 xIN)` LZW decode
-//! without / with early change, `(z xIN)` zlib-encode at best compression, `(e0 xIN)` / `(e1 xIN)` LZW encode with
+//! without / with early change, `(z xIN)` zlib-encode at best compression (`(z0 xIN)`, `(z1 xIN)`, `(z6 xIN)`: at level 0 / 1 / 6), `(e0 xIN)` / `(e1 xIN)` LZW encode with
 //! weezl's own encoder without / with early change (a second, independent producer of LZW streams); prints `xOUT`.  The calls repeat the
 //! call protocol of lopdf's wrappers so that partial output on damaged data is the same.  The generator uses
 //! it for answers it cannot compute itself (flate2's compressed bytes, damaged streams).
@@ -252,6 +259,62 @@ fn stream_case(a: &[Sx]) -> (Sx, String) {
     (Sx::tagged("stream", out), verdict)
 }
 
+/// weezl as lopdf configures it; `None` when the decoder reports an error (lopdf would keep the partial output)
+fn weezl_decode(early: bool, input: &[u8]) -> Option<Vec<u8>> {
+    let mut dec = if early {
+        weezl::decode::Decoder::with_tiff_size_switch(weezl::BitOrder::Msb, 8)
+    } else {
+        weezl::decode::Decoder::new(weezl::BitOrder::Msb, 8)
+    };
+    let mut o = vec![];
+    let r = dec.into_stream(&mut o).decode_all(input);
+    match r.status {
+        Ok(()) => Some(o),
+        Err(_) => None,
+    }
+}
+
+fn flate2_decode(input: &[u8]) -> Option<Vec<u8>> {
+    use std::io::Read;
+    let mut o = Vec::new();
+    let mut d = flate2::read::ZlibDecoder::new(input);
+    match d.read_to_end(&mut o) {
+        Ok(_) => Some(o),
+        Err(_) => None,
+    }
+}
+
+fn obytes(r: &Option<Vec<u8>>) -> Sx {
+    match r {
+        Some(b) => Sx::tagged("ok", vec![Sx::bytes(b)]),
+        None => Sx::id("err"),
+    }
+}
+
+/// (lzwrt | zrt): decode every given stream with the crate, all must give the data
+fn codec_rt(tag: &str, data: &[u8], encs: &[Sx], decode: &dyn Fn(&[u8]) -> Option<Vec<u8>>) -> (Sx, String) {
+    let mut out = vec![];
+    let mut fails = vec![];
+    for (i, e) in encs.iter().enumerate() {
+        let e = match e.as_bytes() {
+            Some(e) => e,
+            None => return (Sx::id("badcase"), "skip".into()),
+        };
+        if i == 0 {
+            out.push(Sx::bytes(&e));
+        }
+        let r = decode(&e);
+        match &r {
+            Some(d) if d == data => {}
+            Some(d) => fails.push(format!("stream {} decodes to {} bytes that are not the data ({} bytes)", i, d.len(), data.len())),
+            None => fails.push(format!("stream {} is rejected", i)),
+        }
+        out.push(obytes(&r));
+    }
+    let verdict = if fails.is_empty() { "ok".to_string() } else { format!("FAIL {}: {}", tag, fails.join("; ")) };
+    (Sx::tagged(tag, out), verdict)
+}
+
 fn paeth_spec(a: u8, b: u8, c: u8) -> u8 {
     // PNG 1.2, 6.6, in the usual simplified form
     let (ai, bi, ci) = (a as i32, b as i32, c as i32);
@@ -438,6 +501,30 @@ fn main() {
                 let verdict = if fails.is_empty() { "ok".to_string() } else { format!("FAIL {}", fails.join("; ")) };
                 (Sx::tagged("doc2", vec![c, d]), verdict)
             }
+            "lzwrt" => {
+                let (ec, data) = match (a.first().and_then(|v| v.as_u64()), a.get(2).and_then(|v| v.as_bytes())) {
+                    (Some(e), Some(d)) => (e != 0, d),
+                    _ => return (Sx::id("badcase"), "skip".into()),
+                };
+                let encs = a.get(3).map(|x| x.args().to_vec()).unwrap_or_default();
+                codec_rt("lzwrt", &data, &encs, &|e| weezl_decode(ec, e))
+            }
+            "lzwdec" => match (a.first().and_then(|v| v.as_u64()), a.get(1).and_then(|v| v.as_bytes())) {
+                (Some(e), Some(d)) => (Sx::tagged("lzwdec", vec![obytes(&weezl_decode(e != 0, &d))]), "ok".into()),
+                _ => (Sx::id("badcase"), "skip".into()),
+            },
+            "zrt" => {
+                let data = match a.get(1).and_then(|v| v.as_bytes()) {
+                    Some(d) => d,
+                    None => return (Sx::id("badcase"), "skip".into()),
+                };
+                let encs = a.get(2).map(|x| x.args().to_vec()).unwrap_or_default();
+                codec_rt("zrt", &data, &encs, &|e| flate2_decode(e))
+            }
+            "zdec" => match a.first().and_then(|v| v.as_bytes()) {
+                Some(d) => (Sx::tagged("zdec", vec![obytes(&flate2_decode(&d))]), "ok".into()),
+                None => (Sx::id("badcase"), "skip".into()),
+            },
             _ => (Sx::id("badcase"), "skip".into()),
         }
     });
@@ -487,8 +574,14 @@ fn oracle() {
                 let _ = enc.into_stream(&mut o).encode_all(input.as_slice());
                 o
             }
-            Some("z") => {
-                let mut e = flate2::write::ZlibEncoder::new(Vec::new(), flate2::Compression::best());
+            Some(t @ "z") | Some(t @ "z0") | Some(t @ "z1") | Some(t @ "z6") => {
+                let level = match t {
+                    "z0" => flate2::Compression::none(),
+                    "z1" => flate2::Compression::fast(),
+                    "z6" => flate2::Compression::new(6),
+                    _ => flate2::Compression::best(),
+                };
+                let mut e = flate2::write::ZlibEncoder::new(Vec::new(), level);
                 e.write_all(&input).unwrap();
                 e.finish().unwrap()
             }
